@@ -97,6 +97,25 @@ def run(ctx):
         i = body.index(s)
         ok = i + 1 < len(body) and norm(body[i + 1]).startswith("len_sql = ['MAX', False, len_sql, ['VALUE', 0]]")
         ctx.ob('C25-TOTAL.computed-length-clamped-at-zero', bs, s, ok, '' if ok else 'a length computed with IF(...) is not clamped with MAX(.., 0): a reversed window yields a negative substring length', node=s)
+    # ... and so do the constant ones: a length given as ['VALUE', <difference of the two bounds>] is clamped in Python (max(.., 0)), or the next
+    # statement wraps it in MAX(.., 0).  substr(s, 4, -2) for s[3:1] is '' on MySQL and an error on PostgreSQL
+    consts = [s for s in walk_no_nested(bs.node) if isinstance(s, ast.Assign) and any(dotted(t) == 'len_sql' for t in s.targets) and isinstance(s.value, ast.List)
+              and len(s.value.elts) == 2 and isinstance(s.value.elts[0], ast.Constant) and s.value.elts[0].value == 'VALUE']
+    for s in consts:
+        v = s.value.elts[1]
+        body = [b for b in bodies(bs.node) if s in b][0]
+        i = body.index(s)
+        wrapped_next = i + 1 < len(body) and norm(body[i + 1]).startswith("len_sql = ['MAX', False, len_sql, ['VALUE', 0]]")
+        def nonneg(e):
+            if isinstance(e, ast.Call) and dotted(e.func) == 'max' and any(isinstance(a, ast.Constant) and a.value == 0 for a in e.args): return True
+            if isinstance(e, ast.Constant) and isinstance(e.value, int) and e.value >= 0: return True
+            if isinstance(e, ast.IfExp): return nonneg(e.body) and nonneg(e.orelse)
+            return False
+        ok = wrapped_next or nonneg(v)
+        ctx.ob('C25-TOTAL.constant-length-clamped-at-zero', bs, s, ok,
+               '' if ok else 'the length of a constant/constant slice is `%s`, which is negative when the stop lies before the start (s[3:1]): PostgreSQL rejects a negative '
+               'substring length, Python returns the empty string' % norm(v), node=s, expected="['VALUE', max(stop_value - start_value, 0)]")
+    ctx.floor('C25-TOTAL', len(consts), 1, 'constant lengths handed to SUBSTR')
     # ---------------------------------------------------------------- SQLITE
     sq = repo.fn('pony.orm.dbproviders.sqlite', 'SQLiteBuilder.STRING_SLICE')
     txt = [norm(s) for s in walk_no_nested(sq.node) if isinstance(s, ast.stmt)]
@@ -194,6 +213,7 @@ def bodies(node):
 
 
 MUTANTS = [
+    dict(id='C25-clamp', file='pony/orm/sqlbuilding.py', fn='SQLBuilder.STRING_SLICE', old="                    len_sql = [ 'VALUE', max(stop_value - start_value, 0) ]  # s[3:1] is empty; PostgreSQL rejects a negative length", new="                    len_sql = [ 'VALUE', stop_value - start_value ]", expect='C25-TOTAL.constant-length'),
     dict(id='C25-twin', file='pony/orm/sqltranslation.py', fn='StringMixin.__getitem__', old="            index_sql = [ 'IF', [ 'GE', inner_sql, [ 'VALUE', 0 ] ], then, else_ ]", new="            index_sql = [ 'IF', [ 'GT', inner_sql, [ 'VALUE', 0 ] ], then, else_ ]", expect='C25-INDEXTWIN'),
     dict(id='C25-m1', file='pony/orm/sqltranslation.py', fn='StringMixin.__getitem__', old='            if stop is None: stop_value = -1', new='            if stop_value is None: stop_value = -1', expect='C25-DEFAULT'),
     dict(id='C25-m2', file='pony/orm/sqlbuilding.py', fn='SQLBuilder.STRING_SLICE', old='                elif start_value < 0 and stop_value >= 0:', new='                elif start_value < 0 and stop_value > 0:', expect='C25-TOTAL.sign'),
